@@ -145,7 +145,7 @@ theorem pow_exact {F : Type} (a n : Int64) (v : Int) :
   · simp [h1, resInt]; omega
   · by_cases h2 : 4294967295 < n.toInt
     · simp [h1, h2, resInt]; omega
-    · simp only [h1, h2, if_false, checkedPow]
+    · simp only [h1, h2, if_false, checkedPow_spec]
       cases hf : fits (a.toInt ^ n.toInt.toNat) with
       | false => simp [resInt]
       | true =>
@@ -170,7 +170,7 @@ theorem pow_exception {F : Type} (a n : Int64) :
   · intro h1 h2 h3
     have h1' : ¬ n.toInt < 0 := by omega
     have h2' : ¬ 4294967295 < n.toInt := by omega
-    simp only [h1', h2', if_false, checkedPow, h3]
+    simp only [h1', h2', if_false, checkedPow_spec, h3]
     rfl
 
 /-- The "exponent is too large" guard only changes the outcome for the bases -1, 0, 1:
